@@ -38,8 +38,8 @@ RES = 2
 ONE = 1 << RES
 
 INPUT_DOMAINS = {
-    0: [-2, 0, 1, 3],            # x
-    1: [-1, 0, 2, 3],            # y
+    0: [-2, 0, 1, 3, 6],         # x (6: needs three bits and exceeds the modulus 5 of the packed field)
+    1: [-1, 0, 2, 5],            # y
     2: [0, 1],                   # b
     3: [-6, -1, 0, 2, 10],       # f (representation at resolution 2: -1.5, -0.25, 0, 0.5, 2.5)
     4: [-1, 0, 1, 2, 3],         # i (index into arrays of length 3: two values out of range)
@@ -710,7 +710,7 @@ def used_inputs(prog):
     return sorted(u)
 
 
-SMALL_DOMAINS = {0: [-2, 1, 3], 1: [-1, 0, 2], 2: [0, 1], 3: [-6, 0, 2], 4: [-1, 1, 3]}
+SMALL_DOMAINS = {0: [-2, 1, 6], 1: [-1, 2, 5], 2: [0, 1], 3: [-6, 0, 2], 4: [-1, 1, 3]}
 
 
 def vectors(prog, domains=None):
